@@ -1425,3 +1425,8 @@ def run(ctx: Ctx, rep: Report, tier: str) -> None:
     operand_range(ctx, rep, rid="R20.8")
     validated_is_returned(ctx, rep, rid="R20.7")
     normaliser_fixed_point(ctx, rep, rid="R20.7")
+    from .c09 import splitter_vocabulary
+
+    sub = Report("C20")
+    splitter_vocabulary(ctx, sub, "R09.5")
+    rep.absorb(sub, "R20.7")
